@@ -331,8 +331,10 @@ def m_table_get(ip, fr, c, t, args, st):
     return _find_like(ip, fr, c, t, args, st, lambda p: p)
 
 
-def stale_entries(ip, st, tid):
+def stale_entries(ip, st, tid, keep=()):
     for oid, v in list(st.store.items()):
+        if oid in keep:
+            continue
         if isinstance(v, tuple) and v and v[0] == "struct" and v[1] == ip.r.entry and v[2].get("#tid") == tid and oid[0] == "E":
             f = dict(v[2])
             f["#tid"] = ("stale", tid)
@@ -363,7 +365,14 @@ def m_table_remove_entry(ip, fr, c, t, args, st):
                     mru = cur["dir"] == ip.r.L_MRU
     except Exception:
         pass
-    ip.events.append(("table_remove", {"state": st.fork(), "lru": lru, "mru": mru, "chain": fr.chain, "loc": c.loc, "in": fr.body.path}))
+    distinct = ()
+    try:
+        if ko[0] == "E" and ev is not None:
+            distinct = tuple(ev[2].get("#distinct") or ())
+    except Exception:
+        distinct = ()
+    ip.events.append(("table_remove", {"state": st.fork(), "lru": lru, "mru": mru, "chain": fr.chain, "loc": c.loc, "in": fr.body.path,
+                                       "distinct": distinct}))
     if not lru and not mru:
         ip.gadd(st, "keyed_removal_done", "yes")     # (both outcomes: the key is gone from the table afterwards)
         kv_id = key_value_id(ip, st, args[2]) if len(args) > 2 else None
@@ -392,6 +401,8 @@ def m_table_remove_entry(ip, fr, c, t, args, st):
         ip.gdel(st, "unlinked", known)
         ip.gdel(st, "unhinged", known)
         ip.gdel(st, "pending", known)
+        ip.gdel(st, "promoted", known)
+        keep = kent[2].get("#distinct") or ()       # entries proved to be other entries than the removed one: their buckets stay put
         size = kent[2][ip.r.E_SIZE]
         k, v = kent[2].get(ip.r.E_KEY), kent[2].get(ip.r.E_VAL)
         st.num.add(le(size[1], f["G"][1]))
@@ -401,11 +412,12 @@ def m_table_remove_entry(ip, fr, c, t, args, st):
         k, v = ("opq", next(ip.ctr)), ("opq", next(ip.ctr))
         st.num.add(le(size[1], f["G"][1]))
         fresh_entry = True
+        keep = ()
     st.num.add(ge(f["N"][1], 1))
     f["G"] = vint(f["G"][1] - size[1])
     f["N"] = vint(f["N"][1] - 1)
     set_table(ip, st, loc, f)
-    stale_entries(ip, st, f.get("#tid"))
+    stale_entries(ip, st, f.get("#tid"), keep)
     ent = mkstruct(ip.r.entry, {ip.r.E_SIZE: size, ip.r.E_KEY: k, ip.r.E_VAL: v,
                                 "#tid": None, "#cur": None, "#removed_from": f.get("#tid")})
     if fresh_entry:
